@@ -33,7 +33,7 @@ SHRINK_BUDGET = 300
 FAULT_OPS = ("gc", "drop_graph", "alloc")
 PROBES = ["cache_entry_read_by_engine_with_other_attrs", "weak_entry_purged_by_gc", "proper_subgraph_query",
           "filter_on_off_pair", "one_edit_neighbour_pair", "relabelled_pair", "hcount_asymmetric_pair",
-          "contained_and_mapped", "engine_shares_graph_with_other_engine"]
+          "contained_and_mapped", "engine_shares_graph_with_other_engine", "call_relying_on_signature_defaults"]
 REAL = ["synkit.Graph.Matcher.graph_matcher.GraphMatcherEngine.isomorphic / get_mappings / _pre_check / _wl_hash_cached (class-level weak cache)",
         "synkit.Graph.Matcher.subgraph_matcher.SubgraphMatch.subgraph_isomorphism / is_subgraph",
         "synkit.Graph.Matcher.subgraph_matcher.SubgraphSearchEngine.find_subgraph_mappings (_quick_pre_filter on/off)",
@@ -219,7 +219,8 @@ def generate(seed: int, tier: str = "quick") -> Dict[str, Any]:
             ops.append({"op": "q_sub", "s": s(), "child": rng.randrange(8), "parent": rng.randrange(8),
                         "check_type": rng.choice(["induced", "monomorphism"]),
                         "api": rng.choice(["SubgraphMatch.subgraph_isomorphism", "SubgraphMatch.is_subgraph", "graph_morphism.subgraph_isomorphism"]),
-                        "labels": rng.choice([["element", "charge"], ["element"]])})
+                        "labels": rng.choice([["element", "charge"], ["element"]]),
+                        "style": rng.choice(["explicit", "explicit", "defaults", "names_only"])})
         elif c < 0.92:
             ops.append({"op": "q_giso", "s": s(), "i": rng.randrange(8), "j": rng.randrange(8)})
         else:
@@ -470,14 +471,23 @@ def _run(case: Dict[str, Any], sim: Sim, world: World) -> None:
             api = op["api"]
             site = api
             res = {}
+            style = op.get("style", "explicit")
+            if style == "defaults":
+                labels, defaults = ["element", "charge"], ["*", 0]   # what the signatures document
+            fn = {"SubgraphMatch.subgraph_isomorphism": SubgraphMatch.subgraph_isomorphism,
+                  "SubgraphMatch.is_subgraph": SubgraphMatch.is_subgraph,
+                  "graph_morphism.subgraph_isomorphism": gmorph.subgraph_isomorphism}[api]
             for filt in (False, True):
-                if api == "SubgraphMatch.subgraph_isomorphism":
-                    r = SubgraphMatch.subgraph_isomorphism(ch["g"], pa["g"], labels, defaults, "order", filt, ct)
-                elif api == "SubgraphMatch.is_subgraph":
-                    r = SubgraphMatch.is_subgraph(ch["g"], pa["g"], labels, defaults, "order", filt, ct)
+                if style == "explicit":
+                    r = fn(ch["g"], pa["g"], labels, defaults, "order", filt, ct)
+                elif style == "defaults":
+                    # rely on the signature defaults (a shared mutable default must not drift with history)
+                    r = fn(ch["g"], pa["g"], use_filter=filt, check_type=ct)
                 else:
-                    r = gmorph.subgraph_isomorphism(ch["g"], pa["g"], labels, defaults, "order", filt, ct)
+                    r = fn(ch["g"], pa["g"], node_label_names=list(labels), use_filter=filt, check_type=ct)
                 res[filt] = bool(r)
+            if style != "explicit":
+                sim.probe("call_relying_on_signature_defaults")
             sim.probe("filter_on_off_pair")
             if len(ch["spec"]["nodes"]) < len(pa["spec"]["nodes"]):
                 sim.probe("proper_subgraph_query")
